@@ -22,7 +22,7 @@ RULE = ("seeded random reconfiguration histories (5-40 steps) on one long-lived 
 MANDATORY = ["sample_before_read:Sampler", "sample_before_read:QuickSampler", "same_U_different_heralds",
              "postselection_mutated_in_place", "param_set_between_reads", "circuit_edited_between_reads",
              "source_mutated_between_reads", "backend_swapped", "input_changed", "analyze_without_expected_after_expected",
-             "loss_added_in_place", "circuit_replaced_more_loss"]
+             "loss_added_in_place", "circuit_replaced_more_loss", "postselection_rule_on_ruled_mode"]
 DECIDING = ["mon.twin_distribution_reads", "mon.twin_sampling_calls", "mon.analyze_postconditions"]
 BUDGET = {"quick": 30, "thorough": 480}
 ASSUMPTIONS = ["a twin built from the current public settings is the reference; distributions compared to 1e-12, seeded "
@@ -189,7 +189,14 @@ def history(ctx, lw, rng, kind):
                 if hasattr(ps, "add") and getattr(ps, "multi_rules", False):
                     k = obj.circuit.input_modes
                     _ = obj.probability_distribution if rng.random() < 0.7 else None
-                    ps.add(int(rng.integers(k)), (0, 1))
+                    used_modes = ps.modes
+                    if used_modes and rng.random() < 0.6:       # a further rule on a mode that already has one
+                        m_add = int(rng.choice(used_modes)) if max(used_modes) < k else int(rng.integers(k))
+                        ctx.bucket("postselection_rule_on_ruled_mode")
+                    else:
+                        m_add = int(rng.integers(k))
+                    nums = [(0, 1), (1,), (0,), (1, 2), (0, 2)][int(rng.integers(5))]
+                    ps.add(m_add, nums)
                     ctx.bucket("postselection_mutated_in_place")
                     changed_since_obs = "postselection_mutated_in_place"
             elif step == "counting":
